@@ -117,6 +117,10 @@ def inject(deck, f):
             c['array_extra'] = ['r']          # the surplus entry written with the repeat shorthand
         elif var == 'one_more_nrepeat':
             c['array_extra'] = ['1r']
+        elif var in ('overshoot_repeat', 'overshoot_nrepeat'):
+            # the last shorthand runs one entry past the declared size: `.. x` -> `.. w 2r` / `.. w r r`
+            c['lunivs'] = c['lunivs'][:-1]
+            c['array_extra'] = ['2r'] if var == 'overshoot_repeat' else ['r', 'r']
         else:
             c['lunivs'] = list(c['lunivs']) + [c['lunivs'][-1]]
     elif cls == 'imp_length':
